@@ -23,7 +23,7 @@ LEVEL = "exploration"
 
 FEATS = ["allof_parent", "oneof_disc", "enum_top", "inline_object", "arr_inline", "map_typed", "nullable", "prim_alias", "arr_alias", "params_everywhere", "param_types",
          "body_form", "secondary_2xx", "default_response", "multi_tag", "no_tag", "many_errors", "fastapi_ids", "all_methods", "inline_response_object",
-         "component_params_responses", "keyword_props", "defaults", "enum_inline", "union_prop"]
+         "component_params_responses", "keyword_props", "defaults", "enum_inline", "union_prop", "pathlevel_only", "shared_param_inline", "nullable", "body_optional"]
 
 
 def perm(items: list, how: str) -> list:
@@ -53,18 +53,41 @@ def render(spec: dict, variant: dict) -> tuple[str, str]:
     sch = d.get("components", {}).get("schemas", {})
     d.setdefault("components", {})["schemas"] = {k: sch[k] for k in perm(list(sch), variant["schemas"])}
     d["paths"] = {k: d["paths"][k] for k in perm(list(d["paths"]), variant["paths"])}
+    if variant.get("pathitem", "id") != "id":
+        d["paths"] = {k: {ik: item[ik] for ik in perm(list(item), variant["pathitem"])} for k, item in d["paths"].items()}
     if variant["props"] != "id":
         d = permute_props(d, variant["props"])
     r = variant["rendering"]
     if r == "json":
         return json.dumps(d), "json"
+    if r == "jsonSorted":
+        return json.dumps(d, sort_keys=True), "json"
     if r == "yamlBareKeys":
         for item in d["paths"].values():
             for op in item.values():
                 if isinstance(op, dict) and "responses" in op:
                     op["responses"] = {(int(k) if str(k).isdigit() else k): v for k, v in op["responses"].items()}
     txt = yaml.safe_dump(d, sort_keys=False, default_flow_style=(r == "yamlFlow"), width=100000)
+    if r == "yamlCapBool":
+        # YAML 1.1 booleans may be written True / False / TRUE / FALSE: same meaning
+        import re as _re
+
+        txt = _re.sub(r"(:\s)true(\s*$)", r"\1True\2", txt, flags=_re.M)
+        txt = _re.sub(r"(:\s)false(\s*$)", r"\1False\2", txt, flags=_re.M)
+        assert yaml.safe_load(txt) == yaml.safe_load(yaml.safe_dump(d, sort_keys=False)), "capitalised booleans changed the document"
     return txt, "yaml"
+
+
+def _canon_ann(text: str) -> str:
+    """Order of the entries of a discriminator mapping inside an annotation's metadata follows the document's key order:
+    that is ordering, not meaning - sort the pairs before comparing."""
+    import re as _re
+
+    def fix(m):
+        pairs = _re.findall(r"\('([^']*)', '([^']*)'\)", m.group(1))
+        return "_mapping_data=(" + ", ".join(f"('{a}', '{b}')" for a, b in sorted(pairs)) + ")"
+
+    return _re.sub(r"_mapping_data=\(((?:\('[^']*', '[^']*'\),? ?)*)\)", fix, text)
 
 
 def manifest(o: dict) -> dict:
@@ -80,7 +103,7 @@ def manifest(o: dict) -> dict:
         models[a["name"]] = [json.dumps(a["kind"])]
     ops = {}
     for c in o["surface"]["clients"]:
-        ops[c["cls"]] = {m: json.dumps([v["sig"], v["ret"], v["nature"]]) for m, v in c["methods"].items()}
+        ops[c["cls"]] = {m: _canon_ann(json.dumps([v["sig"], v["ret"], v["nature"]])) for m, v in c["methods"].items()}
     return {"models": models, "ops": ops}
 
 
@@ -97,14 +120,15 @@ def tree_hash(root: str, pkg: str) -> str:
 
 def run(chk: Check) -> None:
     thorough = chk.tier == "thorough"
-    cfg = f"SPECIFICATION Spec\nCONSTANTS\n Renderings = {tla({'json', 'yamlBlock', 'yamlFlow', 'yamlBareKeys'})}\n Perms = {tla({'id', 'rev', 'rot'})}\nCHECK_DEADLOCK FALSE\n"
+    cfg = f"SPECIFICATION Spec\nCONSTANTS\n Renderings = {tla({'json', 'jsonSorted', 'yamlBlock', 'yamlFlow', 'yamlBareKeys', 'yamlCapBool'})}\n Perms = {tla({'id', 'rev', 'rot'})}\nCHECK_DEADLOCK FALSE\n"
     r = run_tlc(chk.scratch, "Render", cfg, workers=4)
     chk.add_tlc("Render", r)
     variants = sorted(r.printed.get("SCEN", []), key=lambda v: json.dumps(v, sort_keys=True))
     chk.require(len(variants) > 5, "Render emitted too few variants")
     if not thorough:
         variants = [v for v in variants if v["pure"] or v["variant"]["rendering"] in ("json", "yamlBlock") and "rot" not in v["variant"].values()]
-    docs: list[tuple[str, dict]] = [(f"feat:{f}", features.build([f])) for f in (FEATS if thorough else FEATS[::2])]
+    must = ["pathlevel_only", "shared_param_inline", "nullable", "params_everywhere"]  # path-level parameters, shared component parameters, booleans
+    docs: list[tuple[str, dict]] = [(f"feat:{f}", features.build([f])) for f in (FEATS if thorough else sorted(set(FEATS[::2]) | set(must)))]
     docs.append(("feat:mix", features.build(FEATS[:8])))
     kinds = ["ref", "arr", "inline", "map", "oneOf", "allOf"]
     for names in (["A", "B"], ["User", "UserGroup"]):
@@ -122,7 +146,7 @@ def run(chk: Check) -> None:
     chk.assumptions += ["manifests are compared after import + introspection; for pure re-renderings additionally sha256 of the file tree with the package name neutralised", "pyyaml's safe_dump is the YAML renderer (block, flow, bare integer status keys)"]
     root = chk.scratch.sub("render")
     jobs = []
-    ref_variant = {"rendering": "json", "schemas": "id", "paths": "id", "props": "id"}
+    ref_variant = {"rendering": "json", "schemas": "id", "paths": "id", "props": "id", "pathitem": "id"}
     n = 0
     plan = []
     for di, (dname, spec) in enumerate(docs):
@@ -162,7 +186,7 @@ def run(chk: Check) -> None:
             continue
         acc_a, acc_b = a is not None, b is not None
         t = {"id": jid, "variant": v["variant"], "pure": v["pure"], "accepted_a": acc_a, "accepted_b": acc_b, "same_models": True, "same_fields": True, "same_ops": True, "same_sigs": True, "same_bytes": True,
-             "permuted": "+".join(k for k in ("schemas", "paths", "props") if v["variant"][k] != "id") or "none"}
+             "permuted": "sorted" if v["variant"]["rendering"] == "jsonSorted" else ("+".join(k for k in ("schemas", "paths", "props", "pathitem") if v["variant"][k] != "id") or "none")}
         if acc_a and acc_b:
             t["same_models"] = set(a["models"]) == set(b["models"])
             t["same_fields"] = all(a["models"][k] == b["models"].get(k) for k in a["models"] if k in b["models"])
